@@ -97,6 +97,53 @@ func ruleADDR1(c *Ctx) {
 				want = "the condition under which the scratch copy was made"
 				okBit = addrBitIsCopyCondition(info, decl, bit)
 			case "part":
+				// the bit is a parameter of a shared helper (slice and array marshal merged): judge each call site
+				if bv, _ := IdentObj(info, bit).(*types.Var); bv != nil && decl.Obj != nil && isParamOf(decl, decl, bv) {
+					okAll, nCalls := true, 0
+					sig := decl.Obj.Type().(*types.Signature)
+					bi := -1
+					for i := 0; i < sig.Params().Len(); i++ {
+						if sig.Params().At(i) == bv {
+							bi = i
+						}
+					}
+					for _, cf := range callersOf(p, decl.Obj) {
+						cdecl := cf
+						if d := p.enclosingDecl(cf); d != nil {
+							cdecl = d
+						}
+						ck := factoryKinds[strings.TrimPrefix(cdecl.Name, "json.")]
+						sliceOnly := len(ck) > 0 && contains1(ck, "Slice") && !contains1(ck, "Array") && !contains1(ck, "Struct")
+						InspectNoLit(cf.Body(), func(x ast.Node) bool {
+							call, ok := x.(*ast.CallExpr)
+							if !ok || Callee(cf.Info(), call) != decl.Obj || bi < 0 || bi >= len(call.Args) {
+								return true
+							}
+							nCalls++
+							arg := ast.Unparen(call.Args[bi])
+							isIdx := false
+							if idx, ok := val.(*ast.CallExpr); ok {
+								if sel, ok := idx.Fun.(*ast.SelectorExpr); ok && sel.Sel.Name == "Index" {
+									isIdx = true
+								}
+							}
+							if sliceOnly && isIdx {
+								if tv, ok := cf.Info().Types[arg]; !ok || tv.Value == nil || tv.Value.String() != "false" {
+									okAll = false
+								}
+							} else {
+								sel, ok := arg.(*ast.SelectorExpr)
+								if !ok || sel.Sel.Name != "forcedAddr" {
+									okAll = false
+								}
+							}
+							return true
+						})
+					}
+					want = "per call site: false for slice elements, the parent's forcedAddr otherwise"
+					okBit = okAll && nCalls > 0
+					break
+				}
 				isSlice := len(kinds) > 0 && contains1(kinds, "Slice") && !contains1(kinds, "Array") && !contains1(kinds, "Struct")
 				if idx, ok := val.(*ast.CallExpr); ok {
 					if sel, ok := idx.Fun.(*ast.SelectorExpr); ok && sel.Sel.Name == "Index" && isSlice {
